@@ -1013,22 +1013,33 @@ def move_imports_to_toplevel(source: str) -> str:
     removals = []
     for node in imports_movable_to_toplevel:
         removals.append(node)
-        if isinstance(node, ast.Import):
+        package_names = _get_package_names(node)
+        if all(name in constants.PYTHON_311_STDLIB for name in package_names):
+            safe_position_lineno = lineno
+        else:
+            # Other packages may only be importable after whatever comes before their
+            # existing import, like sys.path manipulations
+            module_import_linenos = [
+                min(
+                    (
+                        candidate.lineno
+                        for candidate in toplevel_imports
+                        if name in _get_package_names(candidate)
+                    ),
+                    default=None,
+                )
+                for name in package_names
+                if name not in constants.PYTHON_311_STDLIB
+            ]
+            if None in module_import_linenos:
+                removals.pop()
+                continue
+            safe_position_lineno = max(module_import_linenos)
+
+        if isinstance(node, ast.Import) and safe_position_lineno == lineno:
             new_node = ast.Import(names=node.names, lineno=lineno)
             additions.append(new_node)
             continue
-
-        if node.module in constants.PYTHON_311_STDLIB:
-            safe_position_lineno = lineno
-        else:
-            module_import_linenos = [
-                candidate.lineno
-                for candidate in toplevel_imports
-                if node.module in _get_package_names(candidate)
-            ]
-            if not module_import_linenos:
-                continue
-            safe_position_lineno = min(module_import_linenos)
 
         source_lines = source.splitlines()
         while (
@@ -1037,9 +1048,15 @@ def move_imports_to_toplevel(source: str) -> str:
         ):
             safe_position_lineno -= 1
 
-        new_node = ast.ImportFrom(
-            module=node.module, names=node.names, level=node.level, lineno=safe_position_lineno
-        )
+        if isinstance(node, ast.Import):
+            new_node = ast.Import(names=node.names, lineno=safe_position_lineno)
+        else:
+            new_node = ast.ImportFrom(
+                module=node.module,
+                names=node.names,
+                level=node.level,
+                lineno=safe_position_lineno,
+            )
         additions.append(new_node)
 
     # Remove duplicates
